@@ -43,7 +43,7 @@ MUTANTS = [
     ("embedded-holder-accepted-again", R + "desc.go", "	if ok && len(f.Index) == 1 && f.Type.Kind() == reflect.Slice", "	if ok && f.Type.Kind() == reflect.Slice", ["C12"]),
     ("encode-uses-full-capacity-again", "frugal.go", "reflect.Append(buf[:0:len(buf)], val)", "reflect.Append(buf[:0], val)", ["C04", "C16"]),
     ("truncated-field-header-unchecked", R + "decoder.go", "		if len(b)-i < 2 {\n			return i, io.ErrShortBuffer\n		}", "		if len(b)-i < 1 {\n			return i, io.ErrShortBuffer\n		}", ["C05"]),
-    ("skip-recover-removed", R + "decoder.go", "	n, err = thrift.Binary.Skip(b, thrift.TType(tp))\n	if err == nil && n > len(b) {", "	n, err = thrift.Binary.Skip(b, thrift.TType(tp))\n	if err == nil && n > len(b)+8 {", ["C05"]),
+    ("skip-recover-removed", R + "decoder.go", "		if r := recover(); r != nil {\n			n, err = 0, thrift.NewProtocolException(thrift.INVALID_DATA,", "		if r := error(nil); r != nil {\n			n, err = 0, thrift.NewProtocolException(thrift.INVALID_DATA,", ["C05"]),
     ("required-name-by-offset-again", R + "decoder.go", "newRequiredFieldNotSetException(sd.GetField(fid).Name)", "newRequiredFieldNotSetException(sd.rt.Field(0).Name)", ["C09"]),
     ("size-derefs-byvalue-structs-again", R + "ttype.go", "	if t.IsPointer { // never true when called from reflect.EncodedSize", "	if t.IsPointer || (t.T == tSTRUCT && t.RT.Size() == 8) { // never true when called from reflect.EncodedSize", ["C04"]),
     ("negative-length-off-by-one", R + "decoder.go", "		l := int(int32(binary.BigEndian.Uint32(b)))\n		if l < 0 {\n			return 0, errNegativeSize\n		}\n		i := 4", "		l := int(int32(binary.BigEndian.Uint32(b)))\n		if l < -1 {\n			return 0, errNegativeSize\n		}\n		i := 4", ["C05"]),
